@@ -290,16 +290,26 @@ def native_witness(grid, n_err, seed):
             a, b = parameters
             t = np.asarray(times, dtype=float)
             out = np.array([a * (o + 1) + b * (t - 999.5) * (o + 2) for o in range(n_outputs)])
+            # an output need not be defined where it was not measured (e.g. a running mean AUC(0, t) / t at t = 0): the value at an
+            # unmeasured (output, time) slot carries no information and must not enter the score
+            for o in range(n_outputs):
+                for u_, t_ in enumerate(t):
+                    if float(t_) not in MEASURED[o]:
+                        out[o, u_] = np.nan
             if not self._has:
                 return out
             sens = np.empty((len(t), n_outputs, 2))
             for o in range(n_outputs):
                 sens[:, o, 0] = o + 1
                 sens[:, o, 1] = (t - 999.5) * (o + 2)
+                for u_, t_ in enumerate(t):
+                    if float(t_) not in MEASURED[o]:
+                        sens[u_, o, :] = np.nan
             return out, sens
     rng = np.random.default_rng(seed)
     ems = [real.GaussianErrorModel() if ne == 1 else real.ConstantAndMultiplicativeGaussianErrorModel() for ne in n_err]
     times = [[tval(t) for t in g] for g in grid]
+    MEASURED = [set(float(v_) for v_ in ts_) for ts_ in times]
     obs = [list(rng.uniform(1, 5, len(g))) for g in grid]
     psi = [1.3, 0.7]
     sig = []
